@@ -15,6 +15,7 @@ import (
 	"regexp"
 	"sort"
 	"strings"
+	"sync"
 
 	"github.com/sirupsen/logrus"
 
@@ -71,10 +72,19 @@ type config struct {
 	Blocks  []cfgBlock `json:"blocks"`
 }
 
+// concurrent stream: worker w dispatches its maps Workers[w][0], Workers[w][1], ... and its events,
+// in that order, Rounds times, while the other workers do the same through the same TagHandler.
+type concurrent struct {
+	Rounds  int          `json:"rounds"`
+	Workers [][][]series `json:"workers"`
+	Events  [][][]string `json:"events"` // per worker, event tag lists
+}
+
 type input struct {
 	Static    []string    `json:"static"`
 	Filters   []rawFilter `json:"filters"`
 	Config    *config     `json:"config,omitempty"` // config stream: the handler is built from TOML text
+	Conc      *concurrent `json:"conc,omitempty"`   // concurrent stream: several goroutines dispatch through ONE handler
 	Series    []series    `json:"series"`
 	Events    [][]string  `json:"events"`
 	Forwarded bool        `json:"forwarded"`
@@ -163,7 +173,15 @@ func regexOf(p string) (string, bool) {
 
 func oracle(in input) string {
 	subjects := map[string]bool{}
-	for _, s := range in.Series {
+	all := append([]series{}, in.Series...)
+	if in.Conc != nil {
+		for _, w := range in.Conc.Workers {
+			for _, m := range w {
+				all = append(all, m...)
+			}
+		}
+	}
+	for _, s := range all {
 		subjects[s.Name] = true
 		for _, t := range s.Tags {
 			subjects[t] = true
@@ -486,7 +504,7 @@ func runOne(em *hlib.Emitter, in input) {
 		}
 	}
 	c.Coq = hlib.App("C10", table, hlib.StrList(in.Static), hlib.List(raws), in.Config.coq(), inDump, strLists(evIn),
-		hlib.Bool(ctorPanic != ""), hlib.Bool(next.calls > 0), outDump, strLists(evOut))
+		hlib.Bool(ctorPanic != ""), hlib.Bool(next.calls > 0), outDump, strLists(evOut), "[]")
 	switch {
 	case ctorPanic != "":
 		c.Class = in.Stream + ":ctor-panic"
@@ -799,6 +817,258 @@ func toConfig(r *hlib.Rand, fs []rawFilter, bad bool) *config {
 	return c
 }
 
+// ---------------------------------------------------------------------------------------
+// concurrent stream
+
+type recKey struct{}
+
+// rec receives what the handler passes on for ONE dispatch; it travels in the context, which the
+// TagHandler hands through unchanged, so concurrent dispatches cannot be mixed up by the harness.
+type rec struct {
+	calls  int
+	mm     *gostatsd.MetricMap
+	events []*gostatsd.Event
+}
+
+type ctxCapture struct{}
+
+func (ctxCapture) EstimatedTags() int { return 0 }
+func (ctxCapture) DispatchMetricMap(ctx context.Context, mm *gostatsd.MetricMap) {
+	r := ctx.Value(recKey{}).(*rec)
+	r.calls++
+	r.mm = mm
+}
+func (ctxCapture) DispatchEvent(ctx context.Context, e *gostatsd.Event) {
+	r := ctx.Value(recKey{}).(*rec)
+	r.events = append(r.events, e)
+}
+func (ctxCapture) WaitForEvents() {}
+
+type obs struct {
+	called bool
+	dump   string
+}
+
+// canonical sorts what Go's map iteration order may permute (timer values), so that repeated
+// dispatches of the same map give the same dump unless the handler really answered differently.
+func canonical(mm *gostatsd.MetricMap) {
+	mm.Timers.Each(func(n, k string, t gostatsd.Timer) { sort.Float64s(t.Values) })
+}
+
+func runConcurrent(em *hlib.Emitter, in input, rounds int) {
+	c := hlib.Case{Input: in, Class: "concurrent"}
+	cc := in.Conc
+	table := oracle(in)
+	var th *statsd.TagHandler
+	ctorPanic := hlib.Recover(func() { th = newHandler(in, ctxCapture{}) })
+	if ctorPanic != "" {
+		c.Monitors = append(c.Monitors, "constructor panicked in the concurrent stream: "+ctorPanic)
+		em.Emit(c)
+		return
+	}
+	sub := func(ss []series) input { one := in; one.Series = ss; return one }
+	nw := len(cc.Workers)
+	inDumps := make([][]string, nw)
+	seen := make([][]map[string]obs, nw)    // worker, map -> distinct observations (by dump)
+	evSeen := make([][]map[string]bool, nw) // worker, event -> distinct outgoing tag lists
+	panics := make([]string, nw)
+	for w := range cc.Workers {
+		inDumps[w] = make([]string, len(cc.Workers[w]))
+		seen[w] = make([]map[string]obs, len(cc.Workers[w]))
+		for j, ss := range cc.Workers[w] {
+			inDumps[w][j] = mmgen.Entries(buildMap(sub(ss)))
+			seen[w][j] = map[string]obs{}
+		}
+		evSeen[w] = make([]map[string]bool, len(cc.Events[w]))
+		for j := range cc.Events[w] {
+			evSeen[w][j] = map[string]bool{}
+		}
+	}
+	start := make(chan struct{})
+	var wg sync.WaitGroup
+	for w := 0; w < nw; w++ {
+		wg.Add(1)
+		go func(w int) {
+			defer wg.Done()
+			<-start
+			panics[w] = hlib.Recover(func() {
+				for r := 0; r < rounds; r++ {
+					for j, ss := range cc.Workers[w] {
+						mm := buildMap(sub(ss))
+						rc := &rec{}
+						th.DispatchMetricMap(context.WithValue(context.Background(), recKey{}, rc), mm)
+						o := obs{called: rc.calls > 0, dump: "[]"}
+						if rc.calls > 1 {
+							o.dump = "called twice"
+						} else if rc.mm != nil {
+							canonical(rc.mm)
+							o.dump = mmgen.Entries(rc.mm)
+						}
+						if _, ok := seen[w][j][o.dump]; !ok {
+							seen[w][j][o.dump] = o
+						}
+					}
+					for j, tags := range cc.Events[w] {
+						rc := &rec{}
+						th.DispatchEvent(context.WithValue(context.Background(), recKey{}, rc), &gostatsd.Event{Title: "t", Tags: cp(tags)})
+						key := "lost"
+						if len(rc.events) == 1 {
+							t := cp(rc.events[0].Tags)
+							sort.Strings(t)
+							key = strings.Join(t, "\x00")
+							if hasDup(t) {
+								key = "dup\x00" + key
+							}
+						}
+						evSeen[w][j][key] = true
+					}
+				}
+			})
+		}(w)
+	}
+	close(start)
+	wg.Wait()
+	var triples []string
+	var evIn, evOut [][]string
+	variants := 0
+	for w := 0; w < nw; w++ {
+		if panics[w] != "" {
+			c.Monitors = append(c.Monitors, fmt.Sprintf("worker %d: TagHandler panicked: %s", w, panics[w]))
+		}
+		for j := range cc.Workers[w] {
+			keys := make([]string, 0, len(seen[w][j]))
+			for k := range seen[w][j] {
+				keys = append(keys, k)
+			}
+			sort.Strings(keys)
+			if len(keys) > 1 {
+				variants++
+			}
+			for _, k := range keys {
+				o := seen[w][j][k]
+				if o.dump == "called twice" {
+					c.Monitors = append(c.Monitors, fmt.Sprintf("worker %d map %d: next handler called twice for one map", w, j))
+					continue
+				}
+				triples = append(triples, "("+inDumps[w][j]+", "+hlib.Bool(o.called)+", "+o.dump+")")
+			}
+		}
+		for j, tags := range cc.Events[w] {
+			for k := range evSeen[w][j] {
+				if k == "lost" || strings.HasPrefix(k, "dup\x00") {
+					c.Monitors = append(c.Monitors, fmt.Sprintf("worker %d event %d: lost, duplicated or with duplicate tags (%q)", w, j, k))
+					continue
+				}
+				out := []string{}
+				if k != "" {
+					out = strings.Split(k, "\x00")
+				}
+				evIn = append(evIn, tags)
+				evOut = append(evOut, out)
+			}
+		}
+	}
+	raws := make([]string, len(in.Filters))
+	for i, f := range in.Filters {
+		raws[i] = coqRaw(f)
+	}
+	// the first observation fills the single-map fields of the case, the others go to k_extra
+	first := "[], false, []"
+	if len(triples) > 0 {
+		first = strings.TrimSuffix(strings.TrimPrefix(triples[0], "("), ")")
+		triples = triples[1:]
+	}
+	c.Coq = concCoq(table, in, raws, evIn, evOut, first, triples)
+	c.Nontrivial = nw >= 2 && len(in.Filters) >= 1
+	c.Obs = map[string]interface{}{"workers": nw, "rounds": rounds, "observations": len(triples) + 1, "maps_with_several_outputs": variants}
+	em.Emit(c)
+}
+
+// concCoq assembles the case term; [first] is "input, called, output" of the first observation.
+func concCoq(table string, in input, raws []string, evIn, evOut [][]string, first string, extra []string) string {
+	// first = inDump ", " bool ", " outDump ; the dumps are bracketed lists, so cut at the booleans
+	var inDump, called, outDump string
+	for _, b := range []string{"true", "false"} {
+		if i := strings.Index(first, "], "+b+", ["); i >= 0 {
+			inDump, called, outDump = first[:i+1], b, first[i+len("], "+b+", "):]
+		}
+	}
+	if inDump == "" {
+		inDump, called, outDump = "[]", "false", "[]"
+	}
+	return hlib.App("C10", table, hlib.StrList(in.Static), hlib.List(raws), in.Config.coq(), inDump, strLists(evIn),
+		"false", called, outDump, strLists(evOut), hlib.List(extra))
+}
+
+var concNames = []string{"global.cpu", "global.mem", "noisy.a", "noisy.butok.b", "app.req.count", "abc", "abcd"}
+
+func genConcurrent(r *hlib.Rand) input {
+	in := genInput(r, "main")
+	in.Stream = "concurrent"
+	in.Series, in.Events = []series{}, [][]string{}
+	// filters whose name rules separate the names of the pool, so that different workers' names get
+	// different verdicts from the same filter
+	themed := []rawFilter{
+		{MM: []string{"noisy.*"}, EM: []string{"noisy.butok.*"}, MT: []string{}, DT: []string{}, DropMetric: true},
+		{MM: []string{"global.*"}, EM: []string{}, MT: []string{}, DT: []string{"host:*"}, DropHost: true},
+		{MM: []string{"!global.*"}, EM: []string{"abc"}, MT: []string{}, DT: []string{"env:*", "region:*"}},
+		{MM: []string{}, EM: []string{"app.*", "noisy.a"}, MT: []string{}, DT: []string{"request_path:*"}, DropHost: true},
+		{MM: []string{"abc*"}, EM: []string{"abcd"}, MT: []string{}, DT: []string{}, DropMetric: true},
+	}
+	fs := []rawFilter{}
+	for i, n := 0, r.Range(1, 3); i < n; i++ {
+		fs = append(fs, hlib.Pick(r, themed))
+	}
+	for _, f := range in.Filters { // keep (valid) random filters behind the themed ones
+		if len(fs) < 4 {
+			fs = append(fs, f)
+		}
+	}
+	in.Filters = fs
+	cc := &concurrent{Rounds: 300}
+	tags := []string{"host:a", "host:b", "env:prod", "region:us", "request_path:/x", "a", "x:1"}
+	nw := r.Range(2, 8)
+	for w := 0; w < nw; w++ {
+		var maps [][]series
+		for j, nm := 0, r.Range(1, 2); j < nm; j++ {
+			var ss []series
+			ts := int64(100)
+			for k, nn := 0, r.Range(2, 4); k < nn; k++ { // names: several per map, so verdicts alternate
+				name := hlib.Pick(r, concNames)
+				for q, ns := 0, r.Range(1, 2); q < ns; q++ {
+					s := series{Type: r.Range(1, 4), Name: name, Src: hlib.Pick(r, []string{"", "h1", "10.0.0.1"}), Tags: []string{}}
+					for t, nt := 0, r.Range(0, 3); t < nt; t++ {
+						s.Tags = append(s.Tags, hlib.Pick(r, tags))
+					}
+					ts++
+					s.TS = ts // distinct timestamps: no gauge ties, so one map has one admissible output
+					switch gostatsd.MetricType(s.Type) {
+					case gostatsd.COUNTER:
+						s.CVal = int64(r.Range(1, 100))
+					case gostatsd.GAUGE:
+						s.GBits = math.Float64bits(float64(r.Range(1, 100)))
+					case gostatsd.TIMER:
+						s.TVals = []uint64{math.Float64bits(float64(r.Range(1, 9))), math.Float64bits(float64(r.Range(1, 9)))}
+						s.TSamp = math.Float64bits(2)
+					case gostatsd.SET:
+						s.Members = []string{hlib.Pick(r, members), "m"}
+					}
+					ss = append(ss, s)
+				}
+			}
+			maps = append(maps, ss)
+		}
+		cc.Workers = append(cc.Workers, maps)
+		ev := [][]string{}
+		if r.Chance(1, 3) {
+			ev = append(ev, []string{hlib.Pick(r, tags), hlib.Pick(r, tags), hlib.Pick(r, tags)})
+		}
+		cc.Events = append(cc.Events, ev)
+	}
+	in.Conc = cc
+	return in
+}
+
 func main() {
 	logrus.SetOutput(io.Discard) // NewTagHandlerFromViper logs every filter it loads
 	a := hlib.ParseArgs()
@@ -816,6 +1086,11 @@ func main() {
 				stream = "config"
 			}
 			rr := r.Fork()
+			if n%10 == 0 {
+				in := genConcurrent(rr)
+				runConcurrent(em, in, in.Conc.Rounds)
+				continue
+			}
 			in := genInput(rr, stream)
 			if stream == "config" {
 				in.Config = toConfig(rr, in.Filters, rr.Chance(1, 8))
@@ -829,6 +1104,10 @@ func main() {
 			if err := json.Unmarshal(raw, &in); err != nil {
 				fmt.Fprintln(os.Stderr, "bad input:", err)
 				os.Exit(2)
+			}
+			if in.Conc != nil {
+				runConcurrent(em, in, 10*in.Conc.Rounds) // a replay cannot force the interleaving: try longer
+				continue
 			}
 			runOne(em, in)
 		}
